@@ -131,7 +131,7 @@ def shards(tier):
     for profile in ('publisher', 'pubsubs'):
         for n in ((1, 2, 3, 4) if T else (1, 2, 3)):
             for first in KINDS:
-                out.append(('publish', {'profile': profile, 'n': n, 'k': 5 if T else 3, 'first': first}))
+                out.append(('publish', {'profile': profile, 'n': n, 'k': (4 if n < 3 else 3) if T else 3, 'first': first}))
     return out
 
 
@@ -140,7 +140,7 @@ META = {
             'PUBCOMP (identifier symbolic 0..65535), advance(dt symbolic)}; one path per feasible combination of step kinds, window class, QoS class, '
             'identifier aliasing and timer expiry; non-trivial = counters (acked, completed, half-done QoS 2, stray and duplicate acks, retransmissions, held back)',
     'bounds': {'quick': 'profiles publisher/pubsubs; n<=3 initial publishes, k=3 free steps; payload 2 bytes (one symbolic); advance 0..100 s; fixed jitter sequence',
-               'thorough': 'n<=4, k=5'},
+               'thorough': 'n<=2 with k=4, n<=4 with k=3'},
     'stubs': ['fake transport', 'twisted task.Clock', 'jitter: fixed sequence k/16'],
     'outside': ['histories longer than n+k steps', 'acknowledgement types not fitting the exchange (PUBACK for a QoS 2 identifier, PUBREC/PUBCOMP for a QoS 1 identifier): excluded by the property', 'identifier wrap-around (C17)'],
     'assumptions': ['acknowledgement types fit the exchange they may address (taken from the quantifier)'],
